@@ -22,22 +22,24 @@ pub(crate) trait TimeExtended {
         let now = std::time::SystemTime::now();
         let zoned_now = jiff::Zoned::try_from(now).unwrap_or_else(|_| jiff::Zoned::now());
 
+        // A raw time may name a second that cannot be represented as a date; such a
+        // time is accepted by the parser, but formatting it panics later.
+        let parse = |s: &str| {
+            gix::date::parse(s, Some(now))
+                .ok()
+                .filter(|time| jiff::Timestamp::from_second(time.seconds).is_ok())
+        };
+
         if time_str == "now" {
             Ok(gix::date::Time::new(
                 zoned_now.timestamp().as_second(),
                 zoned_now.offset().seconds(),
             ))
-        } else if let Ok(time) = gix::date::parse(time_str, Some(now)) {
+        } else if let Some(time) = parse(time_str) {
             Ok(time)
-        } else if let Ok(time) = gix::date::parse(
-            &format!("{time_str} {}", zoned_now.strftime("%z")),
-            Some(now),
-        ) {
+        } else if let Some(time) = parse(&format!("{time_str} {}", zoned_now.strftime("%z"))) {
             Ok(time)
-        } else if let Ok(time) = gix::date::parse(
-            &format!("{time_str}{}", zoned_now.strftime("%:z")),
-            Some(now),
-        ) {
+        } else if let Some(time) = parse(&format!("{time_str}{}", zoned_now.strftime("%:z"))) {
             Ok(time)
         } else {
             Err(anyhow!("invalid date `{time_str}`"))
